@@ -35,7 +35,13 @@ def resolve(target):
 
 def clause_items(r):
     if isinstance(r, dict):
-        return [(str(k), bool(v)) for k, v in r.items()]
+        out = []
+        for k, v in r.items():
+            if isinstance(v, dict):
+                out.extend(("%s.%s" % (k, kk), vv) for kk, vv in clause_items(v))
+            else:
+                out.append((str(k), bool(v)))
+        return out
     if isinstance(r, (list, tuple)):
         return [(str(i), bool(v)) for i, v in enumerate(r)]
     return [("", bool(r))]
